@@ -68,7 +68,10 @@ def run(ctx):
         "passing the size token in the parameter named size and the identifier (and value) tokens in the parameters named name (value), "
         "roles being taken from the callee's own prototype; .n/.flags sub-keywords select their setters under a strcmp with that keyword; "
         "x2/x4 select ORC_INSTRUCTION_FLAG_X2/X4 and the flag word and operands (in increasing token order) reach "
-        "orc_program_append_str_n unchanged. Literal semantics and formatting independence are NOT decided.")
+        "orc_program_append_str_n unchanged. The line tokenizer is interpreted abstractly over the character classes NUL/blank/tab/comma/#/other "
+        "(every next character is any class; helpers followed through their CFGs): no token starts on NUL, a blank or '#', none starts on a "
+        "comma that only blanks separate from the previous token, a token's text holds no blank or comma, every token is terminated, and "
+        "nothing is read behind the end of the line (D9). Literal VALUES and line-ending handling outside the tokenizer are not decided here.")
     rep.assumptions += ["reference mapping REFERENCE in rules/c15.py (from the .orc language description in doc/ and the tutorial)"]
     tu = db.tu("orcparse")
     g = None
@@ -219,6 +222,9 @@ def run(ctx):
     d6_token_cursor(db, rep)
     d7_line_copy(db, rep)
     d8_name_exact(db, rep)
+    # D9: the line tokenizer, interpreted abstractly over the character classes of the .orc syntax (lib/tokscan.py)
+    import tokscan
+    tokscan.check(db, rep, "D9-TOKENIZER", where)
 
     # ---- D4: the synthetic name of an inline literal identifies the literal ----------------------------
     # orc_program_append_str_n finds operands BY NAME.  The name made up for an inline literal must therefore be an
